@@ -13,7 +13,8 @@ RULE = ("lists of ids (double SHA-256 of distinct payloads): EXHAUSTIVELY all le
         "entry), plus Hypothesis lists up to 300 with drawn edit sequences. Oracle: get_merkle_root == reference root; "
         "root(edited) != root(original) unless the lists are equal; for every position get_proof(tree,i).hash() == root "
         "(recomputed independently over the proof structure) and the proof contains a leaf with index i and value list[i]; "
-        "calc_merkle_root_hash(transactions) == reference root of their ids. non-trivial = (list, edit) pair with a different "
+        "calc_merkle_root_hash(transactions) == reference root of their ids; generated valid blocks (1-4 transactions) whose "
+        "transaction list is edited under an unchanged header are refused by validate_block_by_itself. non-trivial = (list, edit) pair with a different "
         "resulting list, or (list, position) proof; distinct = digest of (length, edit).")
 ASSUMPTIONS = ["ids crafted to equal an inner node (hash pre-image) are not generated"]
 MIN_NONTRIVIAL = {"quick": 2000, "thorough": 20000}
@@ -87,13 +88,76 @@ def check_proofs(res, M, lst, root, positions):
 
 def shards(tier):
     nmax = 9 if tier == "quick" else 12
-    return [{"kind": "exh", "n": n} for n in range(1, nmax + 1)] + [{"kind": "rand", "i": i} for i in range(4)]
+    return [{"kind": "exh", "n": n} for n in range(1, nmax + 1)] + [{"kind": "rand", "i": i} for i in range(4)] + [{"kind": "blocks", "i": i} for i in range(2)]
+
+
+def block_edits(txs, extra):
+    """structural edits of a block's transaction list (header untouched)"""
+    n = len(txs)
+    yield "substitute_reward", [extra[0]] + txs[1:]
+    yield "append", txs + [extra[1]]
+    yield "duplicate_last", txs + [txs[-1]]
+    for i in range(1, n):
+        yield "remove", txs[:i] + txs[i + 1:]
+        yield "substitute", txs[:i] + [extra[1]] + txs[i + 1:]
+        for j in range(i + 1, n):
+            yield "swap", txs[:i] + [txs[j]] + txs[i + 1:j] + [txs[i]] + txs[j + 1:]
+    if n > 1:
+        yield "reward_only", txs[:1]
+
+
+def run_blocks(res, tier, seed, i):
+    """the header commitment check of block validation: a block whose transaction list was edited while its header was
+    kept must be refused by validate_block_by_itself (blocks with 1..4 transactions, incl. reward-only blocks)"""
+    from vf import chainexec, build as b
+    from skepticoin import consensus as C, datatypes as D
+    n = 6 if tier == "quick" else 80
+
+    @hypothesis.seed(env.subseed(seed, ID, "blocks", i))
+    @settings(max_examples=n, deadline=None, database=None, suppress_health_check=list(hypothesis.HealthCheck), phases=[hypothesis.Phase.generate])
+    @given(st.randoms(use_true_random=True), st.sampled_from(chainexec.CFGS[:3]))
+    def prop(rnd, cfg):
+        case = chainexec.gen_case(rnd, cfg, 8, 0.0, ["C01"], p_tx=0.6)
+        r = chainexec.Run(case, ("C17",))
+        r.execute()
+        from vf.keys import KEYS
+        for o in case["ops"]:
+            blk = r.world.blocks.get(o["label"])
+            if blk is None:
+                continue
+            alt_cb = R.RTx([(R.NULL32, 0, ("cb", blk.height, b"someone else"))], [(blk.txs[0].outs[0][0] if blk.txs[0].outs else 1, KEYS[(o["miner"] + 1) % len(KEYS)].pub)])
+            extra_tx = R.RTx([(R.sha256d(b"x" + blk.id()), 0, ("sig", KEYS[0].sign(b"x")))], [(1, KEYS[1].pub)])
+            now = blk.ts + o.get("now_off", 0)
+            hdr = b.to_sk_block(blk).header
+            try:
+                C.validate_block_by_itself(D.Block(hdr, [b.to_sk_tx(t) for t in blk.txs]), now)
+            except Exception as e:
+                res.error("unedited block refused by validate_block_by_itself: %r" % e)
+                continue
+            for tag, txs in block_edits(blk.txs, (alt_cb, extra_tx)):
+                res.evaluations += 1
+                res.count("block_edit:" + tag)
+                res.count("block_edits_on_reward_only_blocks" if len(blk.txs) == 1 else "block_edits_on_blocks_with_spends")
+                res.nontrivial(env.digest([blk.id().hex(), tag, [t.id().hex()[:12] for t in txs]]))
+                try:
+                    C.validate_block_by_itself(D.Block(hdr, [b.to_sk_tx(t) for t in txs]), now)
+                except Exception:
+                    continue
+                res.fail("header_commitment", "edited-transaction-list-passes:" + tag,
+                         "block with %d transaction(s): transaction list edited (%s) under an unchanged header passes validate_block_by_itself" % (len(blk.txs), tag),
+                         {"n": len(blk.txs), "block_case": case, "label": o["label"], "edit": tag})
+
+    prop()
+    res.sample({"block_edits": ["substitute_reward", "append", "duplicate_last", "remove", "substitute", "swap", "reward_only"], "on": "generated valid blocks with 1..4 transactions, header unchanged"})
 
 
 def run(shard, tier, seed):
     env.import_repo()
     from skepticoin import merkletree as M
     res = Result()
+    if shard["kind"] == "blocks":
+        run_blocks(res, tier, seed, shard["i"])
+        return res
     if shard["kind"] == "exh":
         n = shard["n"]
         lst = ids(n)
@@ -165,6 +229,9 @@ def replay(case):
     from skepticoin import merkletree as M
     res = Result()
     n = case["n"]
+    if "block_case" in case:
+        run_blocks(res, "quick", 1, 0)
+        return res.failures
     if "proof_position" in case:
         lst = ids(n)
         check_proofs(res, M, lst, M.get_merkle_root(list(lst)), [case["proof_position"]])
